@@ -482,6 +482,17 @@ static void c04_valid_case(const TypeCtx& c, uint64_t ci) {
       if (canoned(c.sch, dst.val()) != v0) { viol(fmt("C04:value-differs:%s", tkey(c).c_str()), fmt("%s decoded %s, the bytes denote %s", rname(rk), vjson(canoned(c.sch, dst.val())).c_str(), vjson(v0).c_str()), det); break; }
     }
   }
+  // the same valid encoding arriving on a pipe in pieces of 1..7 bytes from a concurrent producer (short reads): still one well-formed encoding
+  if (r_ok(R_FD, c.t->flags) && ci % 2 == 1 && e.out.size() < 4000) {
+    int fds[2]; if (::pipe(fds) == 0) {
+      Bytes data = e.out; uint64_t s0 = ci * 77 + 5;
+      std::thread feeder([fds, data, s0]() { Rng r(s0); size_t off = 0; while (off < data.size()) { size_t k = std::min<size_t>(1 + r.below(7), data.size() - off); ssize_t w = ::write(fds[1], data.data() + off, k); if (w <= 0) break; off += (size_t)w; if (r.below(3) == 0) std::this_thread::yield(); if (r.below(16) == 0) usleep(200); } ::close(fds[1]); });
+      { Source src; src.kind = R_FD; src.fr.reset(new nop::FdReader(fds[0])); Obj dst(c.t); auto st = c.t->read(src, dst.p); rep().count("c04_valid_encodings_on_a_trickling_pipe");
+        if (!st) viol(fmt("C04:rejects-valid:%s:FdReader<trickling pipe>:%s", errname(st.error()), tkey(c).c_str()), fmt("FdReader rejected ('%s') a well-formed encoding that arrives on a pipe in pieces of 1..7 bytes", errname(st.error())), J().s("bytes", hex(e.out, 160)).str());
+        else if (canoned(c.sch, dst.val()) != v0) viol(fmt("C04:value-differs:%s", tkey(c).c_str()), "FdReader over a trickling pipe decoded another value", J().s("bytes", hex(e.out, 160)).str()); }
+      feeder.join();
+    }
+  }
   if ((c.t->flags & F_NOHOSTILE) && e.out.size() <= 200) for (size_t k = 0; k < e.out.size(); k++) for (int rk : {R_PEDANTIC, R_BUFFER, R_B_PEDANTIC}) {
     Source src; src.init(rk, e.out.data(), k, r_is_bounded(rk) ? k : SIZE_MAX); Obj dst(c.t); auto st = c.t->read(src, dst.p); rep().count("c04_single_defect_categories_compared");
     if (st) viol(fmt("C04:accepts-invalid:Truncated:cut:%s", tkey(c).c_str()), fmt("%s accepted the first %zu of %zu bytes", rname(rk), k, e.out.size()));
@@ -535,6 +546,12 @@ static void c05_case(const TypeCtx& c, uint64_t ci) {
           rep().note_enumerated(k > 0);
           rep().count("c05_cut_reads"); rep().count(std::string("c05_reader_") + rname(rk)); if (which) rep().count("c05_cut_reads_by_other_table_version");
           if (pass) rep().count("c05_cut_reads_of_padded_tables");
+          // the same reader used again after the failure (a receive loop that logs the error and tries the next message): it must not deliver bytes that are
+          // not in the truncated source - the exact-size buffer under ASan and the consumed count are the monitors
+          if (!st && mode == 0 && (rk == R_BUFFER || rk == R_PEDANTIC || rk == R_B_BUFFER || rk == R_B_PEDANTIC) && (k % 3 == 0)) {
+            Obj again(rt->t); auto st2 = rt->t->read(src, again.p); rep().count("c05_second_reads_on_the_same_reader");
+            if (src.consumed() > k) rep().violation(fmt("C05:reader-beyond-source-after-failure:%s:%s", rname(rk), tkey(c).c_str()), fmt("%s: after a failed read of the first %zu bytes, a second Read on the same %s %s and the reader stands at %zu", c.t->name, k, rname(rk), st2 ? "succeeded" : "failed", src.consumed()), case_desc(c.t->name, (int64_t)ci, stage));
+          }
           if (st) rep().violation(fmt("C05:truncated-accepted:%s:%s%s%s", rname(rk), tkey(c).c_str(), which ? ":skipping-reader" : "", pass ? ":padded" : ""), fmt("%s: %s reported success on the first %zu of %zu bytes (mode %s)", c.t->name, rname(rk), k, b.size(), mode ? "limit=k" : "source ends at k"), case_desc(c.t->name, (int64_t)ci, stage, J().s("bytes", hex(b, 160)).u("cut", k).str()));
         }
       }
@@ -787,7 +804,10 @@ static void c10_rpc() {
 // ================================================================= C11: prior contents
 static void c11_case(const TypeCtx& c, uint64_t ci) {
   Viol viol{c, (int64_t)ci, "prior"};
-  Val vin = gen_value(c, ci, 100);
+  // one case per type with a top-level payload well above 64 KiB (decoders that grow the destination in pieces must still replace, not append)
+  const bool big11 = (ci % 16 == 5) && (c.sch.k == K::STR || c.sch.k == K::BIN) && c.sch.len == Len::VAR;
+  if (big11) rep().count("c11_values_above_64KiB");
+  Val vin = gen_value(c, ci, 100, false, big11);
   Obj oin(c.t); Written w;
   set_current("%s", case_desc(c.t->name, (int64_t)ci, "prior").c_str());
   if (!write_reference(c, oin, vin, &w, viol, "C11")) return;
